@@ -87,6 +87,14 @@ def _spec_encode(b):
     return b"1" * (len(b) - len(b.lstrip(b"\0"))) + out
 
 
+def _b58_to_bytes(sv):
+    n = 0
+    for ch in sv:
+        n = n * 58 + ALPHA.index(ch)
+    body = n.to_bytes((n.bit_length() + 7) // 8, "big")
+    return b"\0" * (len(sv) - len(sv.lstrip(b"1"))) + body
+
+
 def _h4(p):
     return hashlib.sha256(hashlib.sha256(p).digest()).digest()[:4]
 
@@ -132,6 +140,24 @@ def gen_cases(rng, tier):
             i2 = min(i, len(s) - 2)
             strs.append(("transpose", s[:i2] + s[i2 + 1:i2 + 2] + s[i2:i2 + 1] + s[i2 + 2:]))
         strs.append(("lead1", b"1" * rng.randrange(1, 5) + s))
+    # carry-cancelling two-character edits: digit d followed by the top digit 'z' -> d+1 followed by a non-alphabet
+    # character (a lookup that answers -1 for it computes the same number); d followed by '1' -> d-1 followed by the byte
+    # after 'z' (a lookup that answers 58)
+    for sv in (valid + validc)[: (120 if T else 40)]:
+        for i in range(len(sv) - 1):
+            a_, b_ = sv[i], sv[i + 1]
+            ia = ALPHA.index(a_)
+            if b_ == ALPHA[57] and ia < 57:
+                for bad in (b"0", b"O", b"I", b"l", b" ", b"\n", b"-", b"\xff"):
+                    strs.append(("carry-cancel", sv[:i] + ALPHA[ia + 1:ia + 2] + bad + sv[i + 2:]))
+                break
+        for i in range(len(sv) - 1):
+            a_, b_ = sv[i], sv[i + 1]
+            ia = ALPHA.index(a_)
+            if b_ == ALPHA[0] and ia > 0:
+                for bad in (b"{", b"~", b"\x7b"):
+                    strs.append(("carry-cancel", sv[:i] + ALPHA[ia - 1:ia] + bad + sv[i + 2:]))
+                break
     # shorter than a checksum
     for s in [b"", b"1", b"11", b"111", b"1111", b"11111", b"2", b"z", b"zz", b"5Q", b"3QJmnh"]:
         strs.append(("short", s))
@@ -170,6 +196,24 @@ def gen_cases(rng, tier):
         via = ("stdin", "file")[(k // 2) % 2]
         out.append(case("cli-dec-%s-%s" % (cls, via), "cli_base58decode", s, fmt, pr, via, strict=True))
         out.append(case("cli-cdec-%s-%s" % (cls, via), "cli_base58check_decode", s, fmt, pr, via, strict=True))
+    # valid encodings that BEGIN like another format (every character of these prefixes is in the Base58 alphabet):
+    # pick the prefix and a random tail, decode, keep the payload, re-append a correct checksum - the prefix survives
+    for pre in (b"bc1q", b"bc1p", b"tb1q", b"tb1p", b"bcrt1q", b"bcrt1p", b"xpub", b"xprv", b"tpub", b"tprv", b"5H", b"KwDi",
+                b"L1a", b"cN", b"9", b"1111", b"3", b"m", b"n", b"2"):
+        for _ in range(2 if not T else 8):
+            tail = bytes(rng.choice(ALPHA) for _ in range(rng.choice([20, 30, 47, 107])))
+            raw = _b58_to_bytes(pre + tail)
+            if len(raw) < 5:
+                continue
+            pay = raw[:-4]
+            sv = _spec_encode(pay + _h4(pay))
+            if not sv.startswith(pre):
+                continue
+            out.append(case("format-lookalike-valid", "base58check_decode", sv, strict=True))
+            out.append(case("format-lookalike-valid", "is_base58check", sv))
+            out.append(case("format-lookalike-valid", "base58decode", sv, strict=True))
+            out.append(case("format-lookalike-enc", "base58check", pay))
+            out.append(case("cli-cdec-format-lookalike", "cli_base58check_decode", sv, "hex", False, "stdin", strict=True))
     # a valid encoding followed / preceded by whitespace is NOT in the alphabet: refused on stdin and through -i FILE
     for s0 in valid[1:4] + validc[1:6]:
         for ws in (b"\n", b"\r\n", b" ", b"\t", b"\n\n", b"\0"):
